@@ -8,7 +8,9 @@ import time
 VERIF = os.path.dirname(os.path.dirname(os.path.abspath(__file__)))
 REPO = os.environ.get("VERIF_REPO", "/repo")
 BUILD = os.environ.get("VERIF_BUILD", os.path.join(VERIF, "build"))
-NCPU = os.cpu_count() or 16
+# number of simulated processes in flight and the first CPU they are pinned to (a sweep can be confined to a subset of the cores)
+NCPU = int(os.environ.get("VERIF_WORKERS", os.cpu_count() or 16))
+CPU0 = int(os.environ.get("VERIF_CPU_OFFSET", "0"))
 
 
 def log(*a):
